@@ -5,10 +5,16 @@ use std::marker::PhantomData;
 use std::mem;
 use std::ptr;
 use std::sync::atomic::Ordering::*;
+#[cfg(not(multiqueue2_verif))]
 use std::sync::atomic::{fence, AtomicUsize};
+#[cfg(multiqueue2_verif)]
+use crate::verif_hooks::{fence, AtomicUsize};
 use std::sync::mpsc::{RecvError, SendError, TryRecvError, TrySendError};
 use std::sync::Arc;
+#[cfg(not(multiqueue2_verif))]
 use std::thread::yield_now;
+#[cfg(multiqueue2_verif)]
+use crate::verif_hooks::yield_now;
 
 use crate::alloc;
 use crate::atomicsignal::LoadedSignal;
@@ -22,7 +28,10 @@ use crate::read_cursor::{ReadCursor, Reader};
 
 extern crate atomic_utilities;
 extern crate futures;
+#[cfg(not(multiqueue2_verif))]
 extern crate parking_lot;
+#[cfg(multiqueue2_verif)]
+use crate::verif_hooks::parking_lot;
 extern crate smallvec;
 
 use self::futures::task::{current, Task};
@@ -892,7 +901,10 @@ impl FutWait {
 
     pub fn fut_wait(&self, seq: usize, at: &AtomicUsize, wc: &AtomicUsize) -> bool {
         if self.spin(seq, at, wc) && self.park(seq, at, wc) {
+            #[cfg(not(multiqueue2_verif))]
             ::std::thread::sleep(::std::time::Duration::from_millis(100));
+            #[cfg(multiqueue2_verif)]
+            crate::verif_hooks::sleep(::std::time::Duration::from_millis(100));
             true
         } else {
             false
@@ -1200,4 +1212,84 @@ pub fn futures_multiqueue_with<RW: QueueRW<T>, T>(
         prod_wait: prod_arc,
     };
     (ftx, rtx)
+}
+
+#[cfg(multiqueue2_verif)]
+mod verif_layout {
+    use super::*;
+    use crate::verif_hooks::{loc, Loc};
+
+    impl<RW: QueueRW<T>, T> MultiQueue<RW, T> {
+        pub fn verif_layout(&self, out: &mut Vec<Loc>) {
+            out.push(loc("head", 0, self.head.verif_addr()));
+            out.push(loc("tail_cache", 0, self.tail_cache.verif_addr()));
+            out.push(loc("writers", 0, self.writers.verif_addr()));
+            out.push(loc("gptr", 0, self.tail.verif_addr()));
+            for i in 0..self.capacity {
+                unsafe {
+                    out.push(loc("tag", i as usize, (*self.data.offset(i)).wraps.verif_addr()));
+                    out.push(loc(
+                        "refcnt",
+                        i as usize,
+                        (*self.refs.offset(i)).refcnt.verif_addr(),
+                    ));
+                }
+            }
+            self.manager.verif_layout(out);
+        }
+    }
+
+    impl<RW: QueueRW<T>, T> InnerSend<RW, T> {
+        pub fn verif_layout(&self) -> Vec<Loc> {
+            let mut out = Vec::new();
+            self.queue.verif_layout(&mut out);
+            out.push(loc("token", 0, MemoryManager::verif_token_addr(self.token)));
+            out
+        }
+    }
+
+    impl<RW: QueueRW<T>, T> InnerRecv<RW, T> {
+        pub fn verif_layout(&self) -> Vec<Loc> {
+            let mut out = Vec::new();
+            self.queue.verif_layout(&mut out);
+            out.push(loc("token", 0, MemoryManager::verif_token_addr(self.token)));
+            let (pos, ncons) = self.reader.verif_addrs();
+            out.push(loc("pos", 0, pos));
+            out.push(loc("ncons", 0, ncons));
+            out
+        }
+    }
+
+    impl FutWait {
+        fn verif_addr(&self) -> usize {
+            self.parked.verif_addr()
+        }
+    }
+
+    impl<RW: QueueRW<T>, T> FutInnerSend<RW, T> {
+        pub fn verif_layout(&self) -> Vec<Loc> {
+            let mut out = self.writer.verif_layout();
+            out.push(loc("cons_parked", 0, self.wait.verif_addr()));
+            out.push(loc("prod_parked", 0, self.prod_wait.verif_addr()));
+            out
+        }
+    }
+
+    impl<RW: QueueRW<T>, T> FutInnerRecv<RW, T> {
+        pub fn verif_layout(&self) -> Vec<Loc> {
+            let mut out = self.reader.verif_layout();
+            out.push(loc("cons_parked", 0, self.wait.verif_addr()));
+            out.push(loc("prod_parked", 0, self.prod_wait.verif_addr()));
+            out
+        }
+    }
+
+    impl<RW: QueueRW<T>, R, F: FnMut(&T) -> R, T> FutInnerUniRecv<RW, R, F, T> {
+        pub fn verif_layout(&self) -> Vec<Loc> {
+            let mut out = self.reader.verif_layout();
+            out.push(loc("cons_parked", 0, self.wait.verif_addr()));
+            out.push(loc("prod_parked", 0, self.prod_wait.verif_addr()));
+            out
+        }
+    }
 }
